@@ -148,7 +148,9 @@ func Generate(seed uint64, id, family string) *sdl.Program {
 					// it also asks for the late definition by name, too early to find it; the lazy
 					// consumer asks for the same name once it exists
 					k.Points = append(k.Points, &sdl.Point{Field: "F1", Kind: pick(r, []string{sdl.KAny, sdl.KIface}), Iface: q, Sel: sdl.SelName, Name: "late", Optional: true})
-					z.Points = append(z.Points, &sdl.Point{Field: "F1", Kind: pick(r, []string{sdl.KAny, sdl.KIface}), Iface: q, Sel: sdl.SelName, Name: "late", Optional: r.p(0.4)})
+					// (optional: something that asks for every component by type may create the lazy
+					// consumer before the definition exists)
+					z.Points = append(z.Points, &sdl.Point{Field: "F1", Kind: pick(r, []string{sdl.KAny, sdl.KIface}), Iface: q, Sel: sdl.SelName, Name: "late", Optional: true})
 				}
 				p.Types = append(p.Types, k)
 				p.Instances = append(p.Instances, &sdl.Instance{ID: fmt.Sprintf("c%d", n+3), Type: k.Name})
@@ -595,6 +597,17 @@ func genPoint(r rng, p *sdl.Program, holder *sdl.Type, k Knobs, field string) *s
 		if slice {
 			pt.Kind = sdl.KPtrs
 		}
+	}
+	if r.p(0.05) {
+		// typed any / []any and selected by type: every registered component is a candidate
+		pt.Target, pt.Iface, pt.Kind = "", 0, sdl.KAny
+		if slice {
+			pt.Kind = sdl.KAnys
+		}
+		if r.p(k.PQual) {
+			pt.Quals = []string{pick(r, qualVals)}
+		}
+		return pt
 	}
 	sel := r.Float64()
 	switch {
